@@ -9,7 +9,10 @@
 (*        sv : value of the control-state status variable afterwards]                               *)
 EXTENDS Naturals, Sequences, TLC
 
-Ctl == {"EQUIPMENT_OFFLINE", "HOST_OFFLINE", "ONLINE_LOCAL", "ONLINE_REMOTE"}
+(* ATTEMPT_ONLINE is held while the operator's switch-online call waits for the answer to its S1F1 probe;   *)
+(* host requests may arrive in that window (OpOnlineBegin / ProbeResult split the operator call in two;      *)
+(* the atomic OpOnline is their composition with nothing in between)                                      *)
+Ctl == {"EQUIPMENT_OFFLINE", "ATTEMPT_ONLINE", "HOST_OFFLINE", "ONLINE_LOCAL", "ONLINE_REMOTE"}
 Online(s) == s.ctl \in {"ONLINE_LOCAL", "ONLINE_REMOTE"}
 OnlineOf(sub) == IF sub = "LOCAL" THEN "ONLINE_LOCAL" ELSE "ONLINE_REMOTE"
 CeOf(sub) == IF sub = "LOCAL" THEN 2 ELSE 3
@@ -33,7 +36,11 @@ Start(initial, sub) ==
 
 Inputs ==
   {[k |-> "OpOnline", probe |-> p] : p \in {"ok", "abort", "silent"}}
-  \cup {[k |-> x] : x \in {"OpOffline", "OpLocal", "OpRemote", "S1F15", "S1F17", "ReadSV", "EnableCE", "DisableCE"}}
+  \cup {[k |-> "ProbeResult", probe |-> p] : p \in {"ok", "abort", "silent"}}
+  \cup {[k |-> x] : x \in {"OpOnlineBegin", "OpOffline", "OpLocal", "OpRemote", "S1F15", "S1F17", "ReadSV", "EnableCE", "DisableCE"}}
+(* while the operator's call is pending only the host acts (a second operator call is another thread: C18)    *)
+Enabled(s, i) == IF s.ctl = "ATTEMPT_ONLINE" THEN i.k \in {"ProbeResult", "S1F15", "S1F17", "ReadSV", "EnableCE", "DisableCE"}
+                 ELSE i.k # "ProbeResult"
 
 Eff(s, i) ==
   CASE i.k = "OpOnline" ->
@@ -42,6 +49,14 @@ Eff(s, i) ==
                   THEN R([s EXCEPT !.ctl = OnlineOf(s.sub)], O(<<>>, Ces(s, <<CeOf(s.sub)>>), TRUE, FALSE, OnlineOf(s.sub)))
                   ELSE R([s EXCEPT !.ctl = "HOST_OFFLINE"], O(<<>>, <<>>, TRUE, FALSE, "HOST_OFFLINE"))
            ELSE Refuse(s)
+    [] i.k = "OpOnlineBegin" ->
+         IF s.ctl = "EQUIPMENT_OFFLINE"
+           THEN R([s EXCEPT !.ctl = "ATTEMPT_ONLINE"], O(<<>>, <<>>, TRUE, FALSE, "ATTEMPT_ONLINE"))
+           ELSE Refuse(s)
+    [] i.k = "ProbeResult" ->
+         IF i.probe = "ok"
+           THEN R([s EXCEPT !.ctl = OnlineOf(s.sub)], O(<<>>, Ces(s, <<CeOf(s.sub)>>), FALSE, FALSE, OnlineOf(s.sub)))
+           ELSE R([s EXCEPT !.ctl = "HOST_OFFLINE"], O(<<>>, <<>>, FALSE, FALSE, "HOST_OFFLINE"))
     [] i.k = "OpOffline" ->
          IF Online(s) THEN R([s EXCEPT !.ctl = "EQUIPMENT_OFFLINE"], O(<<>>, Ces(s, <<1>>), FALSE, FALSE, "EQUIPMENT_OFFLINE"))
          ELSE Refuse(s)
